@@ -34,7 +34,8 @@ def run_sr(facts, rep, rule, prefix, wrappers, core_pred, minconst, scoring_path
         if body is None:
             rep.missing(rule, prefix + name, 'wrapper body not found')
             continue
-        n, s, stored = eng_sr.check_wrapper(rep, rule, body, facts, eff, core_pred, mode_table(facts, spec, minconst))
+        n, s, stored = eng_sr.check_wrapper(rep, rule, body, facts, eff, core_pred, mode_table(facts, spec, minconst),
+                                            restore_prefix=scoring_path)
         nrest += n
         nsites += s
         # the four clip fields must be among the stored (otherwise the wrapper no longer sets the mode)
